@@ -238,6 +238,7 @@ def entry_frame(fr):
     for k, v in fr.ghost.items():
         if k.startswith('old_'):
             f.vars[k[4:]] = v
+            f.vars['p_' + k[4:]] = v      # p_<name>: the parameter even when the contract keyword `result` shadows it
     f.ghost = fr.ghost
     return f
 
